@@ -466,6 +466,10 @@ def p_hist(o):
         # the fourth producer: the runtime builder
         exe2 = build_rt()
         rt_pass(o, exe2, "table", ["--cases", sizes(o.tier, 100_000, 3_000_000), "--max-secs", sizes(o.tier, 30, 200)], timeout=sizes(o.tier, 300, 1200), prefix="builder_")
+        rt_pass(o, exe2, "retain", ["--cases", sizes(o.tier, 100_000, 3_000_000), "--max-secs", sizes(o.tier, 30, 200)], timeout=sizes(o.tier, 300, 1200), prefix="retain_",
+                crash_is_violation=("C01/retain-crash", "retain crashed the process on a well-formed registry"))
+        if o.counter("retained_registries_checked", "retain_") <= 0:
+            o.inconclusive.append("coverage floor missed: no registry produced by retain on RegGen input was checked")
         if o.counter("builder_registries_checked", "builder_") <= 0:
             o.inconclusive.append("coverage floor missed: no registry produced by the runtime builder was checked")
     if o.prop == "C02":
